@@ -389,7 +389,7 @@ fn small_ops() -> Vec<Step> {
 fn random_step(r: &mut Rng) -> Step {
     // "#t" sorts before every "$$" key: the listing must hide secure keys wherever they fall in the order
     let keys = ["a", "ab", "b", "$x", "$$s", "#t"];
-    let values = ["", "1", "-7", "2147483647", "x y", "007", "v", "-2147483648", "+4", " 5"];
+    let values = ["", "1", "-7", "2147483647", "x y", "007", "v", "-2147483648", "+4", " 5", "v ", " ", "5 ", "t\t"];
     let pats = ["", "*", "a*", "*b", "a", "$$*", "*$$", "$*", "b*", "*x"];
     let admin = r.chance(1, 4);
     let k = r.pick(&keys).to_string();
